@@ -13,6 +13,7 @@ mod drops;
 mod flavor;
 mod gsweep;
 mod lockstep;
+mod loopx;
 mod refmodel;
 mod model;
 mod plans;
